@@ -152,6 +152,17 @@ def gen_config(d: Draw, idx):
     name = d.weighted([('Gen%d', 6), ('Gen%d_variant', 1), ('Gen%d_variant_9', 1), ('Gen%d_variant_10', 1), ('super-Gen%d', 1),
                        ('mini-Gen%d_variant_2', 1)]) % idx
     cfg = {'name': name, 'type': 'layered', 'radius': R, 'layers': {}}
+    # the name a world is BUILT under may differ from the name inside its configuration (shipped worlds: 'io_simple' vs
+    # 'Io_Simple'); the variant naming has to keep clear of both
+    bn = d.weighted([('same', 6), ('variant_of', 1), ('base_of', 1), ('lower', 1), ('other', 1)])
+    if bn == 'variant_of':
+        cfg['_build_name'] = name + d.pick(['_variant', '_variant_2', '_variant_3'])
+    elif bn == 'base_of' and '_variant' in name:
+        cfg['_build_name'] = name.split('_variant')[0]
+    elif bn == 'lower':
+        cfg['_build_name'] = name.lower()
+    elif bn == 'other':
+        cfg['_build_name'] = 'K2_%db' % idx
     if d.chance(1, 3):
         cfg['slices'] = d.pick([10, 40, 55])
     prev = 0.0
@@ -408,7 +419,7 @@ class WorldChainEngine(EngineBase):
                 cfg = {k: v for k, v in copy.deepcopy(op['cfg']).items() if not k.startswith('_')}
                 inputs.append((cfg, copy.deepcopy(cfg), 'config handed to build_world at step %d' % i))
                 mass_given = op['cfg'].get('_mass_given')
-                call = lambda: t['build_world'](cfg['name'], cfg)
+                call = lambda: t['build_world'](op['cfg'].get('_build_name') or cfg['name'], cfg)
             else:
                 if not worlds:
                     continue
@@ -739,7 +750,7 @@ class WorldChainEngine(EngineBase):
             return 'build_world(%r)' % op['name']
         if op['op'] == 'build_cfg':
             c = op['cfg']
-            return 'build_world(%r, <%d layers R=%g%s>)' % (c['name'], len(c['layers']), c['radius'], ' mass given' if c.get('_mass_given') else '')
+            return 'build_world(%r, <%d layers R=%g%s%s>)' % (c.get('_build_name') or c['name'], len(c['layers']), c['radius'], ' mass given' if c.get('_mass_given') else '', (' config name %r' % c['name']) if c.get('_build_name') else '')
         if op['op'] == 'derive':
             return 'build_from_world(world[%d], new_config=%s, new_name=%s)' % (op['parent'], op['new_config'], op['new_name'])
         return 'scale_from_world(world[%d], radius_scale=%g, new_name=%s)' % (op['parent'], op['factor'], op['new_name'])
